@@ -6,6 +6,7 @@ import (
 	"fmt"
 	"math/rand"
 	"os"
+	"runtime"
 	"strings"
 	"sync"
 	"time"
@@ -79,6 +80,21 @@ func RunProcessorScenario(seed int64, scen int, log *scenLog, st *procStats) (wa
 		limSize = 40 * limNum
 	}
 	earlyStop := r.Intn(6) == 0
+	// shutdown scenarios (own generator, so that the other parameters of a seed stay what they were):
+	// gatedStop: after the regular batches a last batch, whose final event has a missing parent, is enqueued and
+	//            the inserter is held inside the HighestLamport callback of that event until Stop() has been
+	//            called and has had time to progress; the batch then runs to completion while Stop is running.
+	// jitter:    random yields / short sleeps inside the callbacks, and Stop() more often while batches are in flight.
+	gr := rand.New(rand.NewSource(seed ^ 0x6a7e))
+	gatedStop := gr.Intn(4) == 0
+	jitter := gr.Intn(3) == 0
+	if gatedStop {
+		earlyStop, risky = false, false
+		capNum = limNum + 2*maxBatch + 12
+		capSize = 1 << 20
+	} else if jitter && gr.Intn(2) == 0 {
+		earlyStop = true
+	}
 
 	// ---- events: a DAG with parents among earlier events; Lamport = 1 + max parent Lamport
 	evs := make([]*procEvent, 0, n+8)
@@ -174,12 +190,40 @@ func RunProcessorScenario(seed int64, scen int, log *scenLog, st *procStats) (wa
 		list = list[k:]
 		batches = append(batches, bt)
 	}
+	// the last batch of a gated-stop scenario: 0-2 parentless events and, last, an event whose parent is never handed over
+	var finalBatch *batch
+	if gatedStop {
+		finalBatch = &batch{b: len(batches) + 1, ordered: gr.Intn(2) == 0}
+		var fes []*procEvent
+		for k := gr.Intn(3); k > 0; k-- {
+			fes = append(fes, mk(nil, 1+gr.Intn(2)))
+		}
+		m := mk(nil, 1)
+		m.missing = true
+		fes = append(fes, mk([]int{len(evs) - 1}, 2))
+		for _, pe := range fes {
+			copyN++
+			finalBatch.copies = append(finalBatch.copies, &procCopy{TestEvent: pe.e, c: copyN, ev: pe.ev, size: pe.size})
+		}
+	}
 	for _, pe := range evs {
 		if r.Intn(25) == 0 {
 			failParents[pe.ev] = true
 		}
 		if r.Intn(25) == 0 {
 			failProcess[pe.ev] = true
+		}
+	}
+	if finalBatch != nil {
+		for _, c := range finalBatch.copies {
+			delete(failParents, c.ev)
+			delete(failProcess, c.ev)
+		}
+	}
+	finalCopy := map[int]bool{}
+	if finalBatch != nil {
+		for _, c := range finalBatch.copies {
+			finalCopy[c.c] = true
 		}
 	}
 	lamOf := map[int]int{}
@@ -199,10 +243,29 @@ func RunProcessorScenario(seed int64, scen int, log *scenLog, st *procStats) (wa
 	})
 	held := func() rec { return metricRec(sem.Processing()) }
 	log.emit(rec{"op": "reset", "scen": scen, "seed": seed, "cap": rec{"num": capNum, "size": capSize}, "limnum": limNum, "limsize": limSize,
-		"h0": h0, "events": len(evs), "batches": len(batches), "risky": risky, "earlystop": earlyStop})
-	checkDelay := r.Intn(3) // 0: answer synchronously, 1: short random delays, 2: longer random delays
+		"h0": h0, "events": len(evs), "batches": len(batches), "risky": risky, "earlystop": earlyStop, "gatedstop": gatedStop, "jitter": jitter})
+	checkDelay := r.Intn(3)                       // 0: answer synchronously, 1: short random delays, 2: longer random delays
 	dr := rand.New(rand.NewSource(seed ^ 0x5eed)) // delays; used by the single checker goroutine only
 	var cbWg sync.WaitGroup
+	jr := rand.New(rand.NewSource(seed ^ 0x717e)) // yields; used on the inserter goroutine only
+	yield := func(rr *rand.Rand) {
+		if !jitter {
+			return
+		}
+		switch rr.Intn(4) {
+		case 0:
+			runtime.Gosched()
+		case 1:
+			time.Sleep(time.Duration(rr.Intn(60)) * time.Microsecond)
+		}
+	}
+	// the gate: the gateLeft-th HighestLamport call from now on blocks until releaseGate()
+	gateLeft := 0
+	heldC := make(chan struct{}, 1)
+	releaseC := make(chan struct{})
+	var releaseOnce sync.Once
+	releaseGate := func() { releaseOnce.Do(func() { close(releaseC) }) }
+	defer releaseGate()
 	p := dagprocessor.New(sem, dagprocessor.Config{
 		EventsBufferLimit:      dag.Metric{Num: idx.Event(limNum), Size: uint64(limSize)},
 		EventsSemaphoreTimeout: 100 * time.Millisecond,
@@ -242,11 +305,13 @@ func RunProcessorScenario(seed int64, scen int, log *scenLog, st *procStats) (wa
 				st.inc("released:"+kind, 1)
 			},
 			Get: func(h hash.Event) dag.Event {
+				yield(jr)
 				mu.Lock()
 				defer mu.Unlock()
 				return connected[h]
 			},
 			Exists: func(h hash.Event) bool {
+				yield(jr)
 				mu.Lock()
 				defer mu.Unlock()
 				log.emit(rec{"op": "exists", "ev": evOf[h]})
@@ -254,6 +319,7 @@ func RunProcessorScenario(seed int64, scen int, log *scenLog, st *procStats) (wa
 				return connected[h] != nil
 			},
 			CheckParents: func(e dag.Event, parents dag.Events) error {
+				yield(jr)
 				if failParents[e.(*procCopy).ev] {
 					return errors.New("bad parents")
 				}
@@ -261,11 +327,12 @@ func RunProcessorScenario(seed int64, scen int, log *scenLog, st *procStats) (wa
 			},
 			CheckParentless: func(e dag.Event, checked func(error)) {
 				c := e.(*procCopy)
+				yield(dr)
 				var res error
 				if failCheck[c.c] {
 					res = errors.New("bad event")
 				}
-				if checkDelay == 0 {
+				if checkDelay == 0 || finalCopy[c.c] { // the gated batch is answered at once, so it is handled in batch order
 					checked(res)
 					return
 				}
@@ -279,9 +346,20 @@ func RunProcessorScenario(seed int64, scen int, log *scenLog, st *procStats) (wa
 			},
 		},
 		HighestLamport: func() idx.Lamport {
+			yield(jr)
 			mu.Lock()
-			defer mu.Unlock()
-			return highest
+			h := highest
+			hit := false
+			if gateLeft > 0 {
+				gateLeft--
+				hit = gateLeft == 0
+			}
+			mu.Unlock()
+			if hit { // hold the inserter between taking the check result and pushing the event
+				heldC <- struct{}{}
+				<-releaseC
+			}
+			return h
 		},
 	})
 	p.Start()
@@ -304,66 +382,68 @@ func RunProcessorScenario(seed int64, scen int, log *scenLog, st *procStats) (wa
 			close(stopped)
 		})
 	}
+	enqueueBatch := func(bt *batch) {
+		events := make(dag.Events, len(bt.copies))
+		crecs := make([]rec, len(bt.copies))
+		for i, c := range bt.copies {
+			events[i] = c
+			crecs[i] = rec{"c": c.c, "ev": c.ev, "lam": lamOf[c.ev], "size": c.size}
+		}
+		mu.Lock()
+		log.emit(rec{"op": "enqueue", "b": bt.b, "ordered": bt.ordered, "copies": crecs})
+		mu.Unlock()
+		b := bt.b
+		resC := make(chan error, 1)
+		go func() {
+			resC <- p.Enqueue("peer", events, bt.ordered, nil, func() {
+				mu.Lock()
+				log.emit(rec{"op": "done", "b": b, "held": held()})
+				mu.Unlock()
+				doneC <- b
+			})
+		}()
+		var res error
+		select {
+		case res = <-resC:
+		case <-time.After(1500 * time.Millisecond):
+			// Acquire did not give up at its timeout (datasemaphore has no timer, C30/F10): not a C15
+			// matter. Stopping the processor terminates the semaphore and unblocks the call.
+			accMu.Lock()
+			watchdog = true
+			accMu.Unlock()
+			st.inc("watchdog", 1)
+			doStop()
+			res = <-resC
+		}
+		kind := "ok"
+		if res == dagprocessor.ErrBusy {
+			kind = "busy"
+			st.inc("enqueue_busy", 1)
+		} else if res != nil {
+			kind = "terminated"
+			accMu.Lock()
+			terminated++
+			accMu.Unlock()
+			st.inc("enqueue_terminated", 1)
+		} else {
+			accMu.Lock()
+			accepted++
+			accMu.Unlock()
+			st.inc("enqueue_ok", 1)
+			if bt.ordered {
+				st.inc("enqueue_ok_ordered", 1)
+			}
+		}
+		mu.Lock()
+		log.emit(rec{"op": "enqueued", "b": bt.b, "res": kind, "held": held()})
+		mu.Unlock()
+	}
 	for w := 0; w < nenq; w++ {
 		enqWg.Add(1)
 		go func(w int) {
 			defer enqWg.Done()
 			for k := w; k < len(batches); k += nenq {
-				bt := batches[k]
-				events := make(dag.Events, len(bt.copies))
-				crecs := make([]rec, len(bt.copies))
-				for i, c := range bt.copies {
-					events[i] = c
-					crecs[i] = rec{"c": c.c, "ev": c.ev, "lam": lamOf[c.ev], "size": c.size}
-				}
-				mu.Lock()
-				log.emit(rec{"op": "enqueue", "b": bt.b, "ordered": bt.ordered, "copies": crecs})
-				mu.Unlock()
-				b := bt.b
-				resC := make(chan error, 1)
-				go func() {
-					resC <- p.Enqueue("peer", events, bt.ordered, nil, func() {
-						mu.Lock()
-						log.emit(rec{"op": "done", "b": b, "held": held()})
-						mu.Unlock()
-						doneC <- b
-					})
-				}()
-				var res error
-				select {
-				case res = <-resC:
-				case <-time.After(1500 * time.Millisecond):
-					// Acquire did not give up at its timeout (datasemaphore has no timer, C30/F10): not a C15
-					// matter. Stopping the processor terminates the semaphore and unblocks the call.
-					accMu.Lock()
-					watchdog = true
-					accMu.Unlock()
-					st.inc("watchdog", 1)
-					doStop()
-					res = <-resC
-				}
-				kind := "ok"
-				if res == dagprocessor.ErrBusy {
-					kind = "busy"
-					st.inc("enqueue_busy", 1)
-				} else if res != nil {
-					kind = "terminated"
-					accMu.Lock()
-					terminated++
-					accMu.Unlock()
-					st.inc("enqueue_terminated", 1)
-				} else {
-					accMu.Lock()
-					accepted++
-					accMu.Unlock()
-					st.inc("enqueue_ok", 1)
-					if bt.ordered {
-						st.inc("enqueue_ok_ordered", 1)
-					}
-				}
-				mu.Lock()
-				log.emit(rec{"op": "enqueued", "b": bt.b, "res": kind, "held": held()})
-				mu.Unlock()
+				enqueueBatch(batches[k])
 			}
 		}(w)
 	}
@@ -391,6 +471,23 @@ func RunProcessorScenario(seed int64, scen int, log *scenLog, st *procStats) (wa
 		st.inc("idle_samples", 1)
 		if sem.Processing().Num != 0 {
 			st.inc("idle_with_parked_events", 1)
+		}
+		if finalBatch != nil {
+			mu.Lock()
+			gateLeft = len(finalBatch.copies) // one HighestLamport call per event (all pass their checks)
+			mu.Unlock()
+			enqueueBatch(finalBatch)
+			select {
+			case <-heldC:
+				// the inserter is about to push the event with the missing parent: stop the processor now and let
+				// Stop() progress for a while before the inserter continues
+				st.inc("gated_stop", 1)
+				go doStop()
+				time.Sleep(time.Duration(50+gr.Intn(3000)) * time.Microsecond)
+			case <-time.After(3 * time.Second): // the batch was refused
+				st.inc("gate_not_reached", 1)
+			}
+			releaseGate()
 		}
 		doStop()
 	}
